@@ -915,7 +915,9 @@ def harnesses(tier):
         hs += [MaxAngle(2, 1, "kpc"), MaxAngle(2, 1, "Mpc/h"), MaxAngle(1, 2, "arcmin"), Linkage(2)]
         hs += [ProcessPair(2, 2, "kpc", False), ProcessPair(2, 1, "Mpc/h", True), Wiring(), EndToEndSample("equator_wrap")]
     else:
-        hs += [MaxAngle(2, 2, u) for u in UNITS] + [MaxAngle(3, 1, "kpc"), Linkage(2), Linkage(3), Linkage(2, N=3)]
+        hs += [MaxAngle(2, 2, u) for u in UNITS] + [MaxAngle(3, 1, "kpc"), Linkage(2), Linkage(2, N=3)]
+        # Linkage(3) (three catalogs) was part of this tier: its exploration took 134 s, 517 s and > 25 min in three runs on the
+        # same tree because single z3 feasibility calls ignored their 20 s limit (one ran 755 s) -- dropped, see DESIGN.md
         hs += [ProcessPair(3, 2, u, bb) for u in ("kpc", "Mpc/h", "deg") for bb in (False, True)] + [Wiring(), EndToEndSample("equator_wrap"), EndToEndSample("pole")]
         hs += [TreeCount(2, 2, 1), TreeCount(2, 1, 2), TreeCount(1, 1, 3), TreeCount(1, 2, 1, res=1), TreeCount(1, 1, 1, res=2),
                *[TreeCount(1, 1, 2, res=r, staggered=l) for l in LAYOUTS for r in (1,)], TreeCount(1, 1, 1, res=7), EmptyTree()]
